@@ -70,18 +70,22 @@ fn action_ref_json(r: &J) -> R<J> {
     })
 }
 
-pub fn unresolved_json(s: &J) -> R<J> {
+pub fn unresolved_json(s: &J, st: Style) -> R<J> {
     let mut out = Map::new();
     for (ns, def) in as_obj(s)?.iter() {
         let mut cts = Map::new();
         for (b, t) in as_obj(&def["cts"])?.iter() {
-            cts.insert(b.clone(), utype_json(t)?);
+            let mut t = utype_json(t)?;
+            ann_json(&mut t, b, st);
+            cts.insert(b.clone(), t);
         }
         let mut ets = Map::new();
         for (b, e) in as_obj(&def["ets"])?.iter() {
             let en = arr(&e["enum"], "enum")?;
             if !en.is_empty() {
-                ets.insert(b.clone(), json!({"enum": en}));
+                let mut o = json!({"enum": en});
+                ann_json(&mut o, b, st);
+                ets.insert(b.clone(), o);
                 continue;
             }
             let parents: Vec<J> = arr(&e["memberOf"], "memberOf")?.iter().map(|r| raw_of(r).map(J::String)).collect::<R<_>>()?;
@@ -89,6 +93,7 @@ pub fn unresolved_json(s: &J) -> R<J> {
             if e["tags"] != json!(["none"]) {
                 o["tags"] = utype_json(&e["tags"])?;
             }
+            ann_json(&mut o, b, st);
             ets.insert(b.clone(), o);
         }
         let mut acts = Map::new();
@@ -103,9 +108,13 @@ pub fn unresolved_json(s: &J) -> R<J> {
                 let rs: Vec<J> = arr(&a["resources"], "resources")?.iter().map(|r| raw_of(r).map(J::String)).collect::<R<_>>()?;
                 o["appliesTo"] = json!({"principalTypes": ps, "resourceTypes": rs, "context": utype_json(&a["context"])?});
             }
+            ann_json(&mut o, id, st);
             acts.insert(id.clone(), o);
         }
         let mut d = json!({"entityTypes": ets, "actions": acts});
+        if !ns.is_empty() {
+            ann_json(&mut d, ns, st);
+        }
         if !cts.is_empty() {
             d["commonTypes"] = J::Object(cts);
         }
@@ -155,6 +164,29 @@ impl Style {
     fn alt_layout(self) -> bool {
         self.0 & 2 == 2
     }
+    /// bit 2: every namespace / common type / entity type / action carries two annotations
+    pub fn annotate(self) -> bool {
+        self.0 & 4 == 4
+    }
+}
+
+/// the annotation value written on the declaration called `name` (needs escapes in both syntaxes)
+pub fn ann_doc(name: &str) -> String {
+    format!("d \"q\" \\ {name}\n.")
+}
+
+fn ann_json(o: &mut J, name: &str, st: Style) {
+    if st.annotate() {
+        o["annotations"] = json!({"doc": ann_doc(name), "type": ""});
+    }
+}
+
+fn ann_cedar(name: &str, st: Style, ind: &str) -> String {
+    if !st.annotate() {
+        return String::new();
+    }
+    let flag = if st.alt_layout() { "@type(\"\")" } else { "@type" };
+    format!("{ind}@doc({})\n{ind}{flag}\n", cedar_str(&ann_doc(name)))
 }
 
 fn name_cedar(n: &str, st: Style) -> String {
@@ -204,12 +236,14 @@ fn ns_decls_cedar(def: &J, st: Style, ind: &str) -> R<Option<String>> {
     let mut s = String::new();
     for (b, t) in as_obj(&def["cts"])?.iter() {
         let Some(t) = utype_cedar(t, st)? else { return Ok(None) };
+        s.push_str(&ann_cedar(b, st, ind));
         s.push_str(&format!("{ind}type {b} = {t};\n"));
     }
     for (b, e) in as_obj(&def["ets"])?.iter() {
         let en = arr(&e["enum"], "enum")?;
         if !en.is_empty() {
             let ids: Vec<String> = en.iter().map(|x| cedar_str(x.as_str().unwrap_or(""))).collect();
+            s.push_str(&ann_cedar(b, st, ind));
             s.push_str(&format!("{ind}entity {b} enum [{}];\n", ids.join(", ")));
             continue;
         }
@@ -227,6 +261,7 @@ fn ns_decls_cedar(def: &J, st: Style, ind: &str) -> R<Option<String>> {
         } else {
             String::new()
         };
+        s.push_str(&ann_cedar(b, st, ind));
         s.push_str(&format!("{ind}entity {b}{inp}{shape}{tags};\n"));
     }
     for (id, a) in as_obj(&def["acts"])?.iter() {
@@ -256,6 +291,7 @@ fn ns_decls_cedar(def: &J, st: Style, ind: &str) -> R<Option<String>> {
             }
         }
         line.push_str(";\n");
+        s.push_str(&ann_cedar(id, st, ind));
         s.push_str(&line);
     }
     Ok(Some(s))
@@ -272,6 +308,7 @@ pub fn unresolved_cedar(s: &J, st: Style) -> R<Option<String>> {
             bare.push_str(&d);
         } else {
             let Some(d) = ns_decls_cedar(def, st, "  ")? else { return Ok(None) };
+            named.push_str(&ann_cedar(ns, st, ""));
             named.push_str(&format!("namespace {ns} {{\n{d}}}\n"));
         }
     }
